@@ -645,7 +645,9 @@ func evalHiddenCase(lc LayerCase, b *Batch, res *Result, distinct map[string]str
 	case "symlink":
 		eff := c.A[0]
 		if !strings.HasPrefix(eff, "/") {
-			eff = filepath.Join(filepath.Dir(c.A[1]), eff)
+			// the link lies in the directory of the CLEANED name ("/dir/link/" is an entry of "/dir"): that is
+			// where a relative target starts from (defect D27: the code used Dir of the uncleaned name)
+			eff = filepath.Join(filepath.Dir(filepath.Clean(c.A[1])), eff)
 		}
 		names = []string{eff, c.A[1]}
 	default:
